@@ -99,6 +99,7 @@ func (g *GettyRemoting) sendAsync(session getty.Session, msg message.RpcMessage,
 		// of an in-flight request that happens to have the same id.
 		g.futures.Store(msg.ID, resp)
 	}
+	session = verifWrapSession(session, msg)
 	_, _, err = session.WritePkg(msg, time.Duration(0))
 	if err != nil {
 		if callback != nil {
